@@ -10,6 +10,11 @@ SOURCE cells of that row:
                                  cell[kind] (unsuffixed)                 if lang is the form's default language
                                  '-' (text kinds) / absent (media)       otherwise
 
+  * choices rows: EVERY row of every list is compared for EVERY kind and language, also rows (and kinds) for which
+    no cell is filled in any language (unlabelled choices are legitimate input, pyxform only warns): such a row must
+    show nothing ('-' or no value; media: no value) to every language -- never a sibling row's text. A list is looked
+    at wherever it is rendered: its secondary instance (item -> itextId -> translation/text/value, or inline
+    <label>) and the inline <item>s of every search() select that uses it;
   * inline (non-itext) text is shown to every language, which is only legitimate when the row has nothing but the
     unsuffixed cell for that kind;
   * languages checked = all translations of the form + every language written in the row + the default language
@@ -133,6 +138,23 @@ def _attr_ref_or_inline(v):
 def _compare(out, sheet, kind, who, u, ex, observed, it, langs_all, d, order_flag):
     """observed: ('ref', id, form) | ('inline', text) | ('absent',)"""
     is_media = kind in MEDIA_KINDS
+    if not u and not ex:
+        # NOTHING was written for this (row, kind) in any language: every language must be shown nothing
+        # (the '-' placeholder, or no value at all; media: no value at all) -- never a sibling's text.
+        if observed[0] == "absent":
+            return
+        for lang in (langs_all if observed[0] == "ref" else [None]):
+            shown = it.shown(lang, observed[1], observed[2]) if observed[0] == "ref" else observed[1]
+            if shown is None or (not is_media and _norm(shown) in ("", "-")):
+                continue
+            how = (f"itext id {observed[1]!r}" + (f" form {observed[2]!r}" if observed[2] else "")
+                   if observed[0] == "ref" else "inline text")
+            out.append({"key": f"{P}:{sheet}:{kind}:leak",
+                        "what": f"{who}: no {kind} cell is filled for this row in any language, but users"
+                                + (f" of language {lang!r}" if lang is not None else "")
+                                + f" are shown {shown!r} ({how}; translations {langs_all})"})
+            return
+        return
     langs = list(dict.fromkeys([*langs_all, *ex.keys(), *([d] if u else [])]))
     for lang in langs:
         if lang in ex and lang == d and u:
@@ -273,66 +295,72 @@ def check(case, res, ctx):
             lists.setdefault(ln, []).append((i, row))
     if "name" in ch and ("list_name" in ch or "list name" in ch):
         inst = {iid: e for iid, src, e in corpus.secondary_instances(xf) if src is None}
-        # lists rendered inline (search()): select control -> its list through the type cell of the survey row
+        # lists rendered inline (search()): EVERY select control that carries <item> children -> its list
+        # through the type cell of the survey row
         inline = {}
         for el in elements:
             ctl = controls.get(el["path"])
-            if ctl is None or el["kind"] != "question":
+            if ctl is None or el["kind"] != "question" or names_seen[el["path"]] > 1:
                 continue
             items = ctl.findall(f"{XF}item")
             toks = el["type"].split()
             if items and len(toks) >= 2:
                 ln = next((t for t in toks[1:] if t in lists), None)
                 if ln is not None:
-                    inline.setdefault(ln, items)
+                    inline.setdefault(ln, []).append((f" as shown by survey row {el['row'] + 2} ({el['name']})", items))
         for ln, rows in lists.items():
+            renderings = []
             if ln in inst:
-                items = inst[ln].findall(f"{XF}root/{XF}item")
-                mode = "instance"
-            elif ln in inline:
-                items = inline[ln]
-                mode = "inline"
-            else:
-                continue
-            for pos, (ri, row) in enumerate(rows):
-                if pos >= len(items):
-                    break
-                item = items[pos]
-                if mode == "instance":
-                    nm = item.find(f"{XF}name")
-                    if nm is None or (nm.text or "") != row["name"]:
-                        break  # list content/order is C09's business; do not guess the pairing
-                    tid = item.find(f"{XF}itextId")
-                    lab = item.find(f"{XF}label")
-                    if tid is not None:
-                        obs_label = ("ref", tid.text or "", None)
-                    elif lab is not None:
-                        obs_label = ("inline", corpus.flatten_value(lab))
-                    else:
-                        obs_label = ("absent",)
-                else:
-                    val = item.find(f"{XF}value")
-                    if val is None or (val.text or "") != row["name"]:
+                renderings.append(("instance", "", inst[ln].findall(f"{XF}root/{XF}item")))
+            for where, items in inline.get(ln, []):
+                renderings.append(("inline", where, items))
+            reported = set()
+            for mode, where, items in renderings:
+                for pos, (ri, row) in enumerate(rows):
+                    if pos >= len(items):
                         break
-                    lab = item.find(f"{XF}label")
-                    if lab is None:
-                        obs_label = ("absent",)
+                    item = items[pos]
+                    if mode == "instance":
+                        nm = item.find(f"{XF}name")
+                        if nm is None or (nm.text or "") != row["name"]:
+                            break  # list content/order is C09's business; do not guess the pairing
+                        tid = item.find(f"{XF}itextId")
+                        lab = item.find(f"{XF}label")
+                        if tid is not None:
+                            obs_label = ("ref", tid.text or "", None)
+                        elif lab is not None:
+                            obs_label = ("inline", corpus.flatten_value(lab))
+                        else:
+                            obs_label = ("absent",)
                     else:
-                        m = _ref_or_inline(lab)
-                        obs_label = ("ref", m[1], None) if m[0] == "ref" else ("inline", m[1])
-                who = f"choices row {ri + 2} (list {ln!r} choice {row['name']!r})"
-                for kind in CHOICE_KINDS:
-                    u, ex = cm.cells(row, kind)
-                    if u:
-                        any_unsuffixed = True
-                    if not u and not ex:
-                        continue
-                    if kind == "label":
-                        observed = obs_label
-                    else:
-                        observed = ("ref", obs_label[1], kind) if obs_label[0] == "ref" else ("absent",)
-                    _compare(out, "choices", kind, who, u, ex, observed, it, langs_all, d,
-                             cm.unsuffixed_after_sibling(kind, ex.keys()) and bool(u))
+                        val = item.find(f"{XF}value")
+                        if val is None or (val.text or "") != row["name"]:
+                            break
+                        lab = item.find(f"{XF}label")
+                        if lab is None:
+                            obs_label = ("absent",)
+                        else:
+                            m = _ref_or_inline(lab)
+                            if m[0] == "other":
+                                continue
+                            obs_label = ("ref", m[1], None) if m[0] == "ref" else ("inline", m[1])
+                    who = f"choices row {ri + 2} (list {ln!r} choice {row['name']!r}){where}"
+                    # every choice row x every kind, INCLUDING rows/kinds with no cell filled in any language
+                    for kind in CHOICE_KINDS:
+                        if (ri, kind) in reported:
+                            continue
+                        u, ex = cm.cells(row, kind)
+                        if u:
+                            any_unsuffixed = True
+                        if kind == "label":
+                            observed = obs_label
+                        else:
+                            observed = ("ref", obs_label[1], kind) if obs_label[0] == "ref" else ("absent",)
+                        n0 = len(out)
+                        _compare(out, "choices", kind, who, u, ex, observed, it, langs_all, d,
+                                 cm.unsuffixed_after_sibling(kind, ex.keys()) and bool(u))
+                        if len(out) > n0:
+                            reported.add((ri, kind))
 
     # ---------------- no invented translation
     named = set(sm.langs) | set(cm.langs)
@@ -519,7 +547,8 @@ LANG_TRIPLES = [("English", "French", "Swahili"), ("en", "fr", "default"), ("Eng
 def fam_random(rnd, n, max_rows=3, max_kinds=4, max_langs=3):
     """(row x kind x language) assignments up to 3 x 4 x 3 on BOTH sheets at once, random column order,
     delimiter style per sheet, default language configuration, group/repeat/select rows, shared list,
-    optional search() consumer, translated and untranslated rows mixed."""
+    optional search() consumer, translated and untranslated rows mixed, choice rows with no label (media only) or
+    with nothing written at all."""
     out = []
     for i in range(n):
         langs = list(rnd.choice(LANG_TRIPLES))[: rnd.randint(1, max_langs)]
@@ -569,7 +598,9 @@ def fam_random(rnd, n, max_rows=3, max_kinds=4, max_langs=3):
             fill = {(k, s) for k in ckinds for s in slots if rnd.random() < cdensity}
             if rnd.random() < 0.3:
                 fill = {(k, s) for (k, s) in fill if s is None}
-            if not any(k == "label" for k, _ in fill):
+            if n_c > 1 and rnd.random() < 0.2:
+                fill = set()    # a choice with nothing written in any language (legitimate: pyxform only warns)
+            elif not any(k == "label" for k, _ in fill) and rnd.random() < 0.85:
                 fill.add(("label", rnd.choice(slots) if rnd.random() < 0.7 else None))
             if any(k == "big-image" for k, _ in fill):
                 fill |= {("image", l) for k, l in fill if k == "big-image"}
@@ -583,6 +614,8 @@ def fam_random(rnd, n, max_rows=3, max_kinds=4, max_langs=3):
             ccols.add(("label", None))
         ccols = _order_headers(sorted(ccols, key=lambda c: (CHOICE_KINDS.index(c[0]), c[1] is not None, str(c[1]))),
                                rnd.choice(["plain-first", "plain-last", "plain-middle", "shuffle"]), rnd)
+        if not ccols:
+            ccols = [("label", None)]
         chdr = ["list_name", "name", *[_h(k, l, cd) for k, l in ccols]]
         if "select" not in shapes:
             sel = {"type": rnd.choice(["select_one cl", "select_multiple cl", "rank cl"]), "name": "pick", "label": "pick"}
@@ -631,6 +664,107 @@ def fam_pairs(pairs, delims):
     return out
 
 
+GAP_TRIGGERS = {
+    # name: (columns as (kind, slot) with slot in None | 'A' | 'B', sparse variant makes sense)
+    "tr": ([("label", "A"), ("label", "B")], True),                                   # translated labels
+    "tr+plain": ([("label", None), ("label", "A"), ("label", "B")], True),            # unsuffixed + translated
+    "media": ([("label", None), ("image", None)], True),                              # media makes the list use itext
+    "tr-media": ([("label", "A"), ("label", "B"), ("image", "A"), ("audio", "B")], True),
+    "ref": ([("label", None)], False),                                                # ${ref} in one label
+    "plain": ([("label", None)], False),                                              # control: no itext at all
+}
+GAP_USAGES = ("one", "multi", "shared", "search", "search2", "or_other", "two-lists")
+
+
+def _gap_masks(n):
+    """Which of the n choice rows have NO label/media in any language (bit i = row i is empty)."""
+    if n <= 4:
+        return list(range(1 << n))
+    picks = [0, 1, 1 << (n - 1), 1 << (n // 2), 1 | 1 << (n - 1), 0b110, 3 << (n - 2), 0b10101 & ((1 << n) - 1),
+             0b01010 & ((1 << n) - 1), (1 << n) - 2, (1 << (n - 1)) - 1]
+    return list(dict.fromkeys(picks))
+
+
+def _gap_list(list_name, tag, n, mask, cols, sparse, shift, delim, ref_row):
+    """Choice rows of one list. Non-empty rows fill every column ('full') or a row-dependent non-empty subset of
+    the columns ('sparse': per-language gaps, label-only and media-only rows). Texts are unique per (row, column)."""
+    subsets = [c for k in range(1, len(cols) + 1) for c in itertools.combinations(cols, k)]
+    rows, j = [], 0
+    for i in range(n):
+        row = {"list_name": list_name, "name": f"{tag}{i}"}
+        if not (mask >> i & 1):
+            fill = subsets[(j * 2 + shift) % len(subsets)] if sparse else cols
+            for (k, lang) in fill:
+                row[_h(k, lang, delim)] = _cell(f"{tag}{i}", k, lang)
+            if ref_row is not None and j == ref_row and ("label", None) in fill:
+                row["label"] = row["label"] + " ${t0}"
+            j += 1
+        rows.append(row)
+    return rows
+
+
+def fam_choice_gaps(pairs, sizes, usages, every=1):
+    """Choice rows with NOTHING written (no label, no media, in any language) -- legitimate input, pyxform only
+    warns -- at every position of lists that use itext (translated labels / media / a ${ref} in a label) and of a
+    plain list: all subsets of empty rows for lists of <= 4 rows, first/middle/last/several for longer ones;
+    full and sparse per-language fills of the other rows; the list used by one select, several selects (group,
+    repeat, rank), search() selects, or_other, and next to a second list whose rows are interleaved with it."""
+    out, idx = [], 0
+    for (a, b) in pairs:
+        for n in sizes:
+            for mask in _gap_masks(n):
+                for tname, (tcols, has_sparse) in GAP_TRIGGERS.items():
+                    cols = [(k, {None: None, "A": a, "B": b}[s]) for k, s in tcols]
+                    for sparse in ((False, True) if has_sparse else (False,)):
+                        for usage in usages:
+                            idx += 1
+                            if idx % every:
+                                continue
+                            delim = ":" if idx % 5 == 0 and ":" not in a + b else "::"
+                            cfgs = _configs(a, b)
+                            cname, st, kw = cfgs[(idx // 3) % len(cfgs)]
+                            shift = idx % 7
+                            ref_row = (idx % 3) if tname == "ref" else None
+                            crows = _gap_list("cl", "c", n, mask, cols, sparse, shift, delim, ref_row)
+                            srows = [{"type": "text", "name": "t0", "label": "T"}]
+                            if usage == "one":
+                                srows.append({"type": "select_one cl", "name": "s1", "label": "S1"})
+                            elif usage == "multi":
+                                srows.append({"type": "select_multiple cl", "name": "s1", "label": "S1"})
+                            elif usage == "shared":
+                                srows += [{"type": "select_one cl", "name": "s1", "label": "S1"},
+                                          {"type": "begin group", "name": "g", "label": "G"},
+                                          {"type": "select_multiple cl", "name": "s2", "label": "S2"},
+                                          {"type": "begin repeat", "name": "r", "label": "R"},
+                                          {"type": "rank cl", "name": "s3", "label": "S3"},
+                                          {"type": "end repeat"}, {"type": "end group"}]
+                            elif usage == "search":
+                                srows.append({"type": "select_one cl", "name": "s1", "label": "S1", "appearance": "search('f')"})
+                            elif usage == "search2":
+                                srows += [{"type": "select_one cl", "name": "s1", "label": "S1", "appearance": "search('f')"},
+                                          {"type": "select_multiple cl", "name": "s2", "label": "S2",
+                                           "appearance": "minimal search('f')"}]
+                            elif usage == "or_other":
+                                srows += [{"type": "select_one cl or_other", "name": "s1", "label": "S1"},
+                                          {"type": "select_multiple cl", "name": "s2", "label": "S2"}]
+                            else:  # a second list with its own empty rows, rows of both lists interleaved
+                                n2 = 3
+                                mask2 = (mask * 5 + idx) % (1 << n2)
+                                drows = _gap_list("d.l", "d", n2, mask2, cols, not sparse, shift + 1, delim, None)
+                                inter = []
+                                for i in range(max(len(crows), len(drows))):
+                                    inter += drows[i:i + 1] + crows[i:i + 1]
+                                crows = inter
+                                srows += [{"type": "select_one cl", "name": "s1", "label": "S1"},
+                                          {"type": "select_multiple d.l", "name": "s2", "label": "S2"}]
+                            chdr = ["list_name", "name", *[_h(k, l, delim) for k, l in cols]]
+                            if idx % 4 == 1:
+                                chdr = [*[_h(k, l, delim) for k, l in reversed(cols)], "name", "list_name"]
+                            name = f"gaps[{a}|{b}|n{n}|empty={mask:0{n}b}|{tname}|{'sparse' if sparse else 'full'}|{usage}|{delim}|{cname}]"
+                            out.append(_mk(name, srows, ["type", "name", "label", "appearance"], crows, chdr, st, kw))
+    return out
+
+
 def cases(tier, seed):
     rnd = random.Random(seed * 104729 + 8)
     thorough = tier == "thorough"
@@ -640,8 +774,11 @@ def cases(tier, seed):
         out += fam_single([("English", "French"), ("en", "default")], orders, ("::", ":"), _configs)
         out += fam_pairs([("English", "French")], ("::", ":"))
         out += fam_random(rnd, 6000)
+        out += fam_choice_gaps([("English", "French"), ("en", "default"), ("English (en)", "x y")], (1, 2, 3, 4, 5, 6),
+                               GAP_USAGES)
     else:
         out += fam_single([("English", "French")], orders, ("::", ":"), lambda a, b: _configs(a, b)[:5])
         out += fam_pairs([("English", "French")], ("::",))[::3]
         out += fam_random(rnd, 900)
+        out += fam_choice_gaps([("English", "French")], (3, 4, 5), GAP_USAGES)
     return out
